@@ -177,9 +177,11 @@ structure LDoc where
   trail : Str := []
   deriving Repr, DecidableEq, Inhabited
 
+/-- The XML declaration as written (nothing when there is none). -/
+def LDoc.declText (d : LDoc) : Str := match d.decl with | some x => x.render | none => []
+
 def LDoc.render (d : LDoc) : Str :=
-  (if d.bom then ['\uFEFF'] else []) ++
-    ((match d.decl with | some x => x.render | none => []) ++ (renderL d.items ++ d.trail))
+  (if d.bom then ['\uFEFF'] else []) ++ (d.declText ++ (renderL d.items ++ d.trail))
 
 /-- The tokens the document stands for. -/
 def LDoc.tokens (d : LDoc) : List Token :=
